@@ -163,9 +163,9 @@ func dvalCorpus() []*dvalCase {
 			NestedType: []*descriptorpb.DescriptorProto{{}}, EnumType: []*descriptorpb.EnumDescriptorProto{{}},
 			OneofDecl: []*descriptorpb.OneofDescriptorProto{{}}, ExtensionRange: []*descriptorpb.DescriptorProto_ExtensionRange{{}},
 			ReservedRange: []*descriptorpb.DescriptorProto_ReservedRange{{}}}},
-		EnumType:  []*descriptorpb.EnumDescriptorProto{{}, {Name: proto.String("E"), Value: []*descriptorpb.EnumValueDescriptorProto{{}}}},
-		Extension: []*descriptorpb.FieldDescriptorProto{{}},
-		Service:   []*descriptorpb.ServiceDescriptorProto{{}, {Name: proto.String("S"), Method: []*descriptorpb.MethodDescriptorProto{{}}}},
+		EnumType:       []*descriptorpb.EnumDescriptorProto{{}, {Name: proto.String("E"), Value: []*descriptorpb.EnumValueDescriptorProto{{}}}},
+		Extension:      []*descriptorpb.FieldDescriptorProto{{}},
+		Service:        []*descriptorpb.ServiceDescriptorProto{{}, {Name: proto.String("S"), Method: []*descriptorpb.MethodDescriptorProto{{}}}},
 		SourceCodeInfo: &descriptorpb.SourceCodeInfo{Location: []*descriptorpb.SourceCodeInfo_Location{{}}}})
 	add("nil-named-elements", dvalFlagNilify, &descriptorpb.FileDescriptorProto{Name: proto.String("a.proto"),
 		MessageType: []*descriptorpb.DescriptorProto{{Name: proto.String("M"),
@@ -192,7 +192,7 @@ func dvalCorpus() []*dvalCase {
 		for _, fl := range []byte{0, dvalFlagAllow} {
 			add("service-"+tn, fl, &descriptorpb.FileDescriptorProto{Name: proto.String("a.proto"),
 				MessageType: []*descriptorpb.DescriptorProto{{Name: proto.String("M"), Field: []*descriptorpb.FieldDescriptorProto{{Name: proto.String("f"), Number: proto.Int32(1), Label: descriptorpb.FieldDescriptorProto_LABEL_OPTIONAL.Enum(), Type: descriptorpb.FieldDescriptorProto_TYPE_INT32.Enum()}}}},
-				Service: []*descriptorpb.ServiceDescriptorProto{{Name: proto.String("S"), Method: []*descriptorpb.MethodDescriptorProto{{Name: proto.String("m"), InputType: proto.String(tn), OutputType: proto.String(tn)}}}}})
+				Service:     []*descriptorpb.ServiceDescriptorProto{{Name: proto.String("S"), Method: []*descriptorpb.MethodDescriptorProto{{Name: proto.String("m"), InputType: proto.String(tn), OutputType: proto.String(tn)}}}}})
 		}
 	}
 	// default values
@@ -288,7 +288,7 @@ func dvalASTCorpus() []*dvalCase {
 		for _, rs := range [][]dvalRange{{{1, 5}, {5, 9}}, {{1, 5}, {6, 9}}, {{6, 9}, {1, 5}}, {{1, 5}, {1, 5}}} {
 			mk(fmt.Sprintf("eres-adjacent-%v", rs), &dvalFile{Syntax: syn, Pkg: "p", Enums: []dvalEnum{{Name: "E", Vals: []dvalEVal{{"A", 0, true}}, ResRanges: rs}}})
 		}
-		mk("overlap-sweep-ok",&dvalFile{Syntax: syn, Pkg: "p", Msgs: []dvalMsg{{Name: "M",
+		mk("overlap-sweep-ok", &dvalFile{Syntax: syn, Pkg: "p", Msgs: []dvalMsg{{Name: "M",
 			ResRanges: []dvalRange{{50, 60}, {10, 20}, {30, 40}}, ExtRanges: []dvalRange{{40, 50}, {20, 30}, {60, 70}}}}})
 		// enum corner cases
 		mk("enum-alias", &dvalFile{Syntax: syn, Pkg: "p", Enums: []dvalEnum{{Name: "E", Alias: true, Vals: []dvalEVal{{"A", 0, true}, {"B", 0, true}}}}})
@@ -352,6 +352,12 @@ func dvalLinkedFiles() []*descriptorpb.FileDescriptorProto {
 	})
 	sort.Slice(fds, func(i, j int) bool { return fds[i].Path() < fds[j].Path() })
 	for _, fd := range fds {
+		// The legacy test fixtures (internal/testprotos/legacy) import twelve historical generations, two of which
+		// (2016) never register their file descriptor: such a file cannot be rebuilt against GlobalFiles and is
+		// not a "valid base" for this family (it is linked in by other harness families).
+		if strings.HasPrefix(fd.Path(), "internal/testprotos/legacy/") {
+			continue
+		}
 		dvalLinked = append(dvalLinked, protodesc.ToFileDescriptorProto(fd))
 	}
 	return dvalLinked
